@@ -1,12 +1,12 @@
 SPECIFICATION Spec
 CONSTANTS
   Guids = {"g1"}
-  RuleIds = {"", "r1"}
-  Contents = {"c1"}
+  RuleIds = {"r1"}
+  Contents = {"c1", "c2"}
   Versions = {"2.0"}
   ModeOf <- MCModeOf
-  RulesKey = "id"
-  IdsIdentifyContent = TRUE
+  RulesKey = "idmode"
+  IdsIdentifyContent = FALSE
   InitScenarios = {"fresh"}
   InitDocs <- DocsEmptyId
   MaxReconf = 2
